@@ -780,9 +780,13 @@ def value_alternatives(cls_node: Optional[ast.ClassDef], fn: ast.AST, e: ast.AST
                 t = n.targets[0]
                 if isinstance(t, ast.Name) and t.id == e.id:
                     binds.append((n, n.value))
-                elif isinstance(t, (ast.Tuple, ast.List)) and any(isinstance(x, ast.Name) and x.id == e.id for x in t.elts) and isinstance(n.value, ast.Name):
+                elif isinstance(t, (ast.Tuple, ast.List)) and any(isinstance(x, ast.Name) and x.id == e.id for x in t.elts):
+                    # a, b = memo  /  a, b = self._cache: b is position 1 of whatever that is (a memo read when it can be validated)
                     i = next(k for k, x in enumerate(t.elts) if isinstance(x, ast.Name) and x.id == e.id)
-                    binds.append((n, ast.copy_location(ast.Subscript(value=n.value, slice=ast.Constant(value=i), ctx=ast.Load()), n)))
+                    if isinstance(n.value, (ast.Tuple, ast.List)) and len(n.value.elts) == len(t.elts):
+                        binds.append((n, n.value.elts[i]))
+                    else:
+                        binds.append((n, ast.copy_location(ast.Subscript(value=n.value, slice=ast.Constant(value=i), ctx=ast.Load()), n)))
         if not binds:
             return [e]
         out: List[ast.AST] = []
@@ -811,7 +815,9 @@ def value_alternatives(cls_node: Optional[ast.ClassDef], fn: ast.AST, e: ast.AST
     return [e]
 
 
-_PURE_CALLEES = {"round", "int", "float", "abs", "len", "min", "max", "tuple", "type", "str", "bool"}
+_PURE_CALLEES = {"round", "int", "float", "abs", "len", "min", "max", "tuple", "list", "type", "str", "bool"}
+_PURE_REPO_FUNCTIONS = {"timerange", "normalize", "scale", "digits_of"}          # BPTK_Py/util/floating_point.py: functions of their arguments
+KEYED_MEMO_DIAGNOSES: List[tuple] = []        # (function, read, why the key does not determine the remembered value); cleared by the caller
 
 
 def _table_attr(fn: ast.AST, e: ast.AST) -> Optional[str]:
@@ -910,16 +916,36 @@ def _keyed_memo_read(cls_node, fn, v: ast.AST) -> Optional[ast.AST]:
                 return None
             val = b
         val = _written_out(f2, val)
-        # the key determines a name only when the name itself is (a component of) the key: (type(dt), dt) determines dt, (type(dt),) does not
+        # the key determines an expression only when the expression itself is (a component of) the key, possibly coerced:
+        # (type(dt), dt) determines dt, (type(dt),) does not; (float(start), float(self.dt)) determines start and self.dt, not self.mod.dt
         kx = _written_out(f2, k2)
-        key_names = {x.id for x in (kx.elts if isinstance(kx, ast.Tuple) else [kx]) if isinstance(x, ast.Name)}
-        for x in ast.walk(val):
-            if isinstance(x, ast.Call) and not (isinstance(x.func, ast.Name) and x.func.id in _PURE_CALLEES):
-                return None
-            if isinstance(x, ast.Attribute):
-                return None
-        free = {x.id for x in ast.walk(val) if isinstance(x, ast.Name)} - _PURE_CALLEES
-        if not free <= key_names:
+        comps = set()
+        for x in (kx.elts if isinstance(kx, ast.Tuple) else [kx]):
+            while isinstance(x, ast.Call) and isinstance(x.func, ast.Name) and x.func.id in ("float", "int", "str", "repr") and len(x.args) == 1:
+                x = x.args[0]
+            if isinstance(x, (ast.Name, ast.Attribute)):
+                comps.add(ast.unparse(x))
+        undetermined = []
+
+        def scan(x):
+            if isinstance(x, ast.Call):
+                if not (isinstance(x.func, ast.Name) and x.func.id in _PURE_CALLEES | _PURE_REPO_FUNCTIONS):
+                    undetermined.append(ast.unparse(x.func) + "()")
+                for a in list(x.args) + [k.value for k in x.keywords]:
+                    scan(a)
+                return
+            if isinstance(x, (ast.Name, ast.Attribute)):
+                if ast.unparse(x) not in comps:
+                    undetermined.append(ast.unparse(x))
+                return
+            for c in ast.iter_child_nodes(x):
+                if isinstance(c, ast.expr):
+                    scan(c)
+        scan(val)
+        if undetermined:
+            KEYED_MEMO_DIAGNOSES.append((fn, v, "what is remembered in %s under the key %s is %s, which also depends on %s - not part of the key: "
+                                         "a later call with the same key and a different %s is served the value computed for the earlier one"
+                                         % (attr, ast.unparse(kx)[:70], ast.unparse(val)[:70], ", ".join(sorted(set(undetermined))), sorted(set(undetermined))[0])))
             return None
         if result is not None and ast.unparse(result) != ast.unparse(val):
             return None
